@@ -56,6 +56,7 @@ class Normalizer:
         self.inline = inline
         self.inline_ok = inline_ok
         self.scopes: List[Dict[str, Term]] = []
+        self.local_defs: Dict[str, Tuple[ast.Lambda, Term]] = {}      # nested `def f(x): return e` seen by the path explorer
         self.cls = fn.enclosing_class
         self.self_term = self_term
         self.inlined: List[str] = []
@@ -536,12 +537,29 @@ class Normalizer:
 
     def n_Call(self, e: ast.Call, b):
         f = e.func
+        if isinstance(f, ast.Name) and f.id == "__sa_prefixlen__":                                                # produced by sa/desugar.py
+            args, kwargs = self._args(e)
+            return ("call", "sa.prefixlen", args, ())
         if isinstance(f, ast.Name) and f.id in ("__sa_takewhile__", "__sa_dropwhile__", "__sa_groupby__"):      # produced by sa/desugar.py
             args, kwargs = self._args(e)
             return T.mk_call("itertools." + f.id.strip("_")[3:], args, kwargs)
         fs = self._format_call_as_fstring(e)
         if fs is not None:
             return fs
+        if isinstance(f, ast.Name) and f.id in self.local_defs and not e.keywords \
+                and not any(isinstance(a, ast.Starred) for a in e.args):
+            # call of a nested one-expression function: its body with the arguments in place of the parameters
+            lam_ast, lam_term = self.local_defs[f.id]
+            names = [a.arg for a in lam_ast.args.args]
+            free = {n.id for n in ast.walk(lam_ast.body) if isinstance(n, ast.Name)} - set(names)
+            shadowed = any(f.id in sc or (free & set(sc)) for sc in self.scopes)
+            if self.env.get(f.id, ("",))[0] == "lam" and len(names) == len(e.args) and not shadowed:
+                scope = {n: self.norm(a) for n, a in zip(names, e.args)}
+                self.scopes.append(scope)
+                try:
+                    return self.norm(lam_ast.body)
+                finally:
+                    self.scopes.pop()
         # super().m(...)
         callees = self.ctx.cg.resolve_call(self.fn, e) if not self.scopes_shadow(f) else [Callee("unknown")]
         repo = [c for c in callees if c.kind in ("fn", "ctor")]
@@ -609,6 +627,23 @@ class Normalizer:
                 ast.copy_location(call, e)
                 ast.fix_missing_locations(call)
                 return self._canonical_iteration("filter", call)
+            return None
+        if dotted == "zip" and len(e.args) == 2:
+            # zip(repeat(c), xs) == ((c, x) for x in xs)
+            def rep(a):
+                return isinstance(a, ast.Call) and self._dotted_external(a.func) in ("itertools.repeat", "repeat") \
+                    and len(a.args) == 1 and not a.keywords
+            a0, a1 = e.args
+            if rep(a0) != rep(a1):
+                var = f"__it{self.level}"
+                load = ast.Name(id=var, ctx=ast.Load())
+                const, xs = (a0.args[0], a1) if rep(a0) else (a1.args[0], a0)
+                elt = ast.Tuple(elts=[const, load] if rep(a0) else [load, const], ctx=ast.Load())
+                gen = ast.GeneratorExp(elt=elt, generators=[ast.comprehension(target=ast.Name(id=var, ctx=ast.Store()), iter=xs,
+                                                                              ifs=[], is_async=0)])
+                ast.copy_location(gen, e)
+                ast.fix_missing_locations(gen)
+                return self.norm(gen)
             return None
         if dotted in ("map", "filter") and len(e.args) == 2:
             f, xs = e.args
